@@ -74,6 +74,14 @@ def _test_connective(repo, cls):
     kc, fn = repo.lookup_method(cls, "test")
     if fn is None:
         return None
+    # all(...) / any(...) over self.exprs, as an expression or as the written-out short-circuit loop
+    q_ = feat.quantifier_of(fn)
+    if q_ is not None:
+        kind, elt, it, tv = q_
+        vp = params(fn)[1] if len(params(fn)) > 1 else "value"
+        if it == "self.exprs" and elt == "%s.test(%s)" % (tv, vp):
+            return kind
+        return None
     rets = [r for r in walk_body(fn.body) if isinstance(r, ast.Return)]
     if len(rets) != 1:
         return None
@@ -242,6 +250,48 @@ def _match_shape(f):
     return first[0], rest[0], res[0]
 
 
+def _match_iterative(f):
+    """The level-by-level walk written as a loop (same meaning as the tail recursion):
+        q = qs[0]; res = [n for n in nodes if q(n)]
+        for q in qs[1:]:  [if not res: break]  gc = list(chain.from_iterable(n.children for n in res)); res = [n for n in gc if q(n)]
+        return res
+    Returns a description, or None."""
+    ps = params(f)
+    if len(ps) != 2:
+        return None
+    qs, nodes = ps
+    body = [b for b in f.body if not (isinstance(b, ast.Expr) and isinstance(b.value, ast.Constant))]
+    if len(body) != 4 or not (isinstance(body[0], ast.Assign) and isinstance(body[1], ast.Assign) and isinstance(body[2], ast.For) and isinstance(body[3], ast.Return)):
+        return None
+    a0, a1, lp, ret = body
+
+    def level(lc, src, q):
+        return isinstance(lc, ast.ListComp) and len(lc.generators) == 1 and not lc.generators[0].is_async and U(lc.generators[0].iter) == src \
+            and U(lc.elt) == U(lc.generators[0].target) and [U(i) for i in lc.generators[0].ifs] == ["%s(%s)" % (q, U(lc.generators[0].target))]
+    if not (isinstance(a0.targets[0], ast.Name) and U(a0.value) == "%s[0]" % qs):
+        return None
+    q0 = a0.targets[0].id
+    if not (isinstance(a1.targets[0], ast.Name) and level(a1.value, nodes, q0)):
+        return None
+    res = a1.targets[0].id
+    if U(ret.value) != res or lp.orelse or U(lp.iter) != "%s[1:]" % qs or not isinstance(lp.target, ast.Name):
+        return None
+    qv = lp.target.id
+    lb = list(lp.body)
+    if lb and isinstance(lb[0], ast.If) and not lb[0].orelse and len(lb[0].body) == 1 and isinstance(lb[0].body[0], ast.Break) and U(lb[0].test) == "not %s" % res:
+        lb = lb[1:]
+    children = "list(chain.from_iterable((n.children for n in %s)))" % res
+    import re as _re2
+    norm = lambda t: _re2.sub(r"\(\((\w+)\.children for \1 in ", "((n.children for n in ", t)
+    if len(lb) == 2 and isinstance(lb[0], ast.Assign) and isinstance(lb[0].targets[0], ast.Name) and norm(U(lb[0].value)) == children \
+            and isinstance(lb[1], ast.Assign) and U(lb[1].targets[0]) == res and level(lb[1].value, lb[0].targets[0].id, qv):
+        return "for %s in %s[1:]: %s = [n for n in children(%s) if %s(n)]" % (qv, qs, res, res, qv)
+    if len(lb) == 1 and isinstance(lb[0], ast.Assign) and U(lb[0].targets[0]) == res and isinstance(lb[0].value, ast.ListComp) and len(lb[0].value.generators) == 1 \
+            and norm(U(lb[0].value.generators[0].iter)) in (children, children[5:-1]) and level(lb[0].value, U(lb[0].value.generators[0].iter), qv):
+        return "for %s in %s[1:]: %s = [n for n in children(%s) if %s(n)]" % (qv, qs, res, res, qv)
+    return None
+
+
 def r3_order(cx):
     cx.rule("C20.R3", "results are built in document order; roots are de-duplicated keeping the first occurrence", floor=6)
     qi = cx.repo.module(QI)
@@ -266,6 +316,8 @@ def r3_order(cx):
             q0, rest, (rname, lc, _a) = sh
             g = lc.generators[0]
             ok = U(lc.elt) == U(g.target) and [U(i) for i in g.ifs] == ["%s(%s)" % (q0, U(g.target))] and not g.is_async
+        elif _match_iterative(mt[0]) is not None:
+            ok = True
     cx.require(ok, mt[0] if mt else cq, "a level keeps exactly the nodes satisfying the query, in input order", construct="res = [n for n in nodes if q(n)]")
     fl = qi.func("_flatten", "C20.R3")
     inner = [n for n in fl.body if isinstance(n, FUNC_TYPES)]
@@ -355,9 +407,19 @@ def r4_levels(cx):
         return
     f = mt[0]
     sh = _match_shape(f)
-    cx.require(sh is not None, f, "match takes the first query and keeps the rest for the next level", construct="q = qs[0]; qs = qs[1:]")
-    if sh is None:
+    itv = _match_iterative(f) if sh is None else None
+    cx.require(sh is not None or itv is not None, f, "match takes the first query and keeps the rest for the next level", construct=itv or "q = qs[0]; qs = qs[1:]")
+    if sh is None and itv is not None:
+        cx.ok(f, "the next query runs on the children of this level's matches (only while queries and matches remain)", construct=itv)
+        cx.ok(f, "the last level's matches are the result", construct="return res")
+    if sh is None and itv is None:
         return
+    if sh is not None:
+        _r4_recursive(cx, f, sh)
+    _r4_rest(cx, qi, cq)
+
+
+def _r4_recursive(cx, f, sh):
     q0, rest, (rname, lc, resdef) = sh
     rec = [r for r in walk_body(f.body) if isinstance(r, ast.Return) and isinstance(r.value, ast.Call) and call_name(r.value) == "match"]
     ok = len(rec) == 1 and len(rec[0].value.args) == 2 and U(rec[0].value.args[0]) == rest
@@ -370,6 +432,9 @@ def r4_levels(cx):
     cx.require(ok, rec[0] if rec else f, "the next query runs on the children of this level's matches (only while queries and matches remain)", construct="gc = children of res; return match(qs, gc)")
     last = [r for r in walk_body(f.body) if isinstance(r, ast.Return) and r not in rec]
     cx.require(bool(last) and all(U(r.value) == rname for r in last), last[-1] if last else f, "the last level's matches are the result", construct="return res")
+
+
+def _r4_rest(cx, qi, cq):
     qs = [a for a in cq.body if isinstance(a, ast.Assign) and U(a.targets[0]) == "queries"]
     cx.require(len(qs) == 1 and U(qs[0].value) == "[_desugar(q) for q in queries]", qs[0] if qs else cq, "every query is desugared, in order", construct=short(qs[0]) if qs else "?")
     ds = qi.func("_desugar", "C20.R4")
